@@ -187,8 +187,26 @@ def differential(tier, seed):
         out = os.path.join(common.EVID, ".parts", "C19.%s.json" % tag)
         os.makedirs(os.path.dirname(out), exist_ok=True)
         exe = os.path.join(tdir, "rel", "pbt")
-        q = subprocess.run([exe, "C19", "--tier", tier, "--seed", str(seed), "--profile", tag, "--out", out, "--replays", common.REPLAYS, "--threads", str(os.cpu_count() or 8)], env=common.ENV, stdout=subprocess.PIPE, stderr=subprocess.PIPE, text=True, timeout=3600)
+        crumbs = os.path.join(common.EVID, ".crumbs")
+        os.makedirs(crumbs, exist_ok=True)
+        import glob, hashlib
+        for f in glob.glob(os.path.join(crumbs, "C19.%s.*.crumb" % tag)):
+            os.remove(f)
+        q = subprocess.run([exe, "C19", "--tier", tier, "--seed", str(seed), "--profile", tag, "--out", out, "--replays", common.REPLAYS, "--crumbs", crumbs, "--threads", str(os.cpu_count() or 8)], env=common.ENV, stdout=subprocess.PIPE, stderr=subprocess.PIPE, text=True, timeout=3600)
         sys.stderr.write(q.stderr[-1500:])
+        if q.returncode < 0 and q.returncode != -9:
+            # the harness died on a signal in this feature set: that is a behavioural difference
+            crashes = []
+            for c in sorted(glob.glob(os.path.join(crumbs, "C19.%s.*.crumb" % tag))):
+                text = open(c).read().strip()
+                if not text:
+                    continue
+                os.makedirs(common.REPLAYS, exist_ok=True)
+                rp = os.path.join(common.REPLAYS, "C19-crash-%s.%s.replay" % (hashlib.sha1(text.encode()).hexdigest()[:8], tag))
+                open(rp, "w").write("# the %s harness died on signal %d while running this case\nprofile %s\n%s\n" % (tag, -q.returncode, tag, text))
+                crashes.append(rp)
+            outs[tag] = {"crashed": -q.returncode, "crash_replays": crashes, "evaluations": 0, "distinct_nontrivial": 0, "samples": [], "violations": [], "per_config": {}, "digests": {}}
+            continue
         if q.returncode not in (0, 1) or not os.path.exists(out):
             log("[C19] pbt C19 (%s) failed rc=%s" % (tag, q.returncode))
             return None
@@ -201,6 +219,12 @@ def differential(tier, seed):
             import re as _re
             m = _re.search(r"\[replay=([^\]]+)\]", v["trace"])
             res["mismatches"].append({"cfg": v["cfg"], "kind": "model:" + v["sig"], "replay": m.group(1) if m else None, "text": "[%s feature set] %s: %s :: %s" % ("default" if tag == "rel" else "no-default-features", v["cfg"], v["msg"], v["trace"][:300])})
+    for tag, j in outs.items():
+        if j.get("crashed"):
+            for rp in (j["crash_replays"] or [None])[:6]:
+                res["mismatches"].append({"cfg": "crash", "kind": "crash-signal-%d" % j["crashed"], "replay": rp, "text": "the harness built %s died on signal %d (the other feature set did not)" % ("with default features" if tag == "rel" else "with --no-default-features", j["crashed"])})
+    if any(j.get("crashed") for j in outs.values()):
+        return res
     da, db = a.get("digests", {}), b.get("digests", {})
     for cfg in sorted(set(da) | set(db)):
         if da.get(cfg) != db.get(cfg):
